@@ -5,6 +5,10 @@ import (
 	"fmt"
 	"os"
 	"runtime/debug"
+	"strings"
+	"sync"
+
+	"go.uber.org/zap/zapcore"
 	"time"
 
 	"github.com/DataDog/datadog-go/v5/statsd"
@@ -22,8 +26,14 @@ type Core struct {
 }
 
 func Env(dir string) *conf.Config {
+	logger := zap.NewNop().Sugar()
+	if os.Getenv("VERIF_LOG") != "" {
+		if l, err := zap.NewDevelopment(); err == nil {
+			logger = l.Sugar()
+		}
+	}
 	return &conf.Config{
-		Logger:               zap.NewNop().Sugar(),
+		Logger:               logger,
 		StoreLocation:        dir,
 		FullsyncLeaseTimeout: 0,
 		RunnerConfig:         &conf.RunnerConfig{PoolIncremental: 10, PoolFull: 5, Concurrent: 1},
@@ -49,6 +59,27 @@ func (c *Core) Close() error { return c.Store.Close() }
 // (with the stack) and does not leak an open database.
 func TryOpenCore(dir string) (core *Core, err error) {
 	env := Env(dir)
+	// record what the hub logs at error level while opening: Store.Open swallows badger's error
+	var logged []string
+	var lmu sync.Mutex
+	rec := zap.New(zapcore.NewCore(zapcore.NewConsoleEncoder(zap.NewDevelopmentEncoderConfig()), zapcore.AddSync(writerFunc(func(b []byte) {
+		if os.Getenv("VERIF_LOG") != "" {
+			os.Stderr.Write(b)
+		}
+		lmu.Lock()
+		if len(logged) < 20 {
+			logged = append(logged, strings.TrimSpace(string(b)))
+		}
+		lmu.Unlock()
+	})), zapcore.InfoLevel), zap.WithFatalHook(zapcore.WriteThenPanic))
+	env.Logger = rec.Sugar()
+	defer func() {
+		if err != nil {
+			lmu.Lock()
+			err = fmt.Errorf("%v\nhub error log: %v", err, logged)
+			lmu.Unlock()
+		}
+	}()
 	var st *server.Store
 	defer func() {
 		if p := recover(); p != nil {
@@ -70,3 +101,7 @@ func TryOpenCore(dir string) (core *Core, err error) {
 }
 
 var _ = time.Second
+
+type writerFunc func(b []byte)
+
+func (w writerFunc) Write(b []byte) (int, error) { w(b); return len(b), nil }
